@@ -824,10 +824,15 @@ func TestVerifC13(t *testing.T) {
 	}
 	// v1 naming (NutsLegacyNamingOption): the subject name is only known once the did:nuts document exists; which method the
 	// MethodManagers map visits first is random, so many rounds (fault-free; both methods, then the single-method nodes)
-	for round := 0; round < 12; round++ {
+	// (Go starts a map iteration at a random slot of the bucket: with two keys the one inserted first comes first in 7 of 8 runs.
+	// The managers are therefore registered in both insertion orders, alternating.)
+	for round := 0; round < 18; round++ {
 		m := c13Configs[0]
-		if round >= 10 {
-			m = c13Configs[round-9]
+		if round%2 == 1 {
+			m = []string{"web", "nuts"}
+		}
+		if round >= 16 {
+			m = c13Configs[round-15]
 		}
 		legacy := []c13Ev{do("createleg", "L", "", ""), do("addsvc", "L", "A", ""), do("addkey", "L", "", ""), do("deact", "L", "", "")}
 		exec(c13Variants(fmt.Sprintf("l%d", round), legacy, m, rng, false)[0])
